@@ -118,7 +118,7 @@ func xarParse2(b []byte, requireSig bool) (*xarInfo, error) {
 		}
 		_ = i
 	}
-	if x.cksum.Len == 0 || (requireSig && x.sig.Len == 0) {
+	if x.cksum.Len == 0 || (requireSig && x.sig.Len == 0 && x.xsig.Len == 0) {
 		return nil, errors.New("xar: checksum / signature not found in TOC")
 	}
 	return x, nil
@@ -178,7 +178,9 @@ func buildXAR(env *Env, v Variant) ([]*Artifact, error) {
 	m.Set(0, x.hdrLen, Unclassified, "xar.header")
 	m.Set(x.tocOff, x.tocLen, Protected, "xar.toc-compressed")
 	m.Set(x.heap+x.cksum.Off, x.cksum.Len, Protected, "xar.heap.toc-checksum")
-	m.Set(x.heap+x.sig.Off, x.sig.Len, Protected, "xar.heap.rsa-signature")
+	if x.sig.Len > 0 {
+		m.Set(x.heap+x.sig.Off, x.sig.Len, Protected, "xar.heap.rsa-signature")
+	}
 	for _, f := range x.files {
 		m.Set(x.heap+f.Off, f.Len, Protected, "xar.heap.file-data")
 	}
